@@ -54,7 +54,7 @@ typedef struct {
     volatile int stop;       /* deadline or cap hit */
     volatile int nondet;     /* determinism failure */
     uint64_t executions, pruned, ok, horizon_hits, timeouts, transitions, ops,
-        states, devlist_overflow, frontier_overflow, cps, p_alts;
+        states, devlist_overflow, frontier_overflow, cps, p_alts, hash_mismatch;
     long max_frontier;
     int nout;
     outent out[MAXOUT];
@@ -339,9 +339,14 @@ static void worker(int wi)
             int st1 = run_exec(xr, cur_cfg, e.dev, e.ndev, cur_bound,
                                rerun ? opt_horizon * 10 : opt_horizon, 0, 1, 0,
                                errfd, rerun ? opt_wall * 5 : opt_wall);
-            confirmed = (st1 == st0 && !strcmp(key0, xr->key) &&
-                         (st0 == ABTMC_ST_CRASH || st0 == ABTMC_ST_TIMEOUT ||
-                          th0 == xr->tracehash));
+            /* same deviation list must fail alike (status and key); the trace
+             * hash is compared too but a mismatch there is only counted: it
+             * contains raw addresses, and a replay in a process with another
+             * heap layout may legitimately differ */
+            confirmed = (st1 == st0 && !strcmp(key0, xr->key));
+            if (confirmed && st0 != ABTMC_ST_CRASH && st0 != ABTMC_ST_TIMEOUT &&
+                th0 != xr->tracehash)
+                __atomic_fetch_add(&S->hash_mismatch, 1, __ATOMIC_RELAXED);
             if (!confirmed && st0 != ABTMC_ST_ENGINE) {
                 lock();
                 S->nondet = 1;
@@ -798,6 +803,7 @@ int abtmc_main(int argc, char **argv, const abtmc_driver *d)
                 "\"pruned_by_cache\":%llu,"
                 "\"horizon_hits\":%llu,\"max_frontier\":%ld,"
                 "\"devlist_overflow\":%llu,\"frontier_overflow\":%llu,"
+                "\"hash_mismatch\":%llu,"
                 "\"stopped\":%d,\"wall_s\":%.3f,\"outcomes\":[",
                 opt_P, opt_T, opt_E, completedP,
                 (drained && completedP == opt_P) ? "true" : "false",
@@ -806,8 +812,8 @@ int abtmc_main(int argc, char **argv, const abtmc_driver *d)
                 (unsigned long long)agg_cps, (unsigned long long)agg_pruned,
                 (unsigned long long)agg_hh, S->max_frontier,
                 (unsigned long long)S->devlist_overflow,
-                (unsigned long long)S->frontier_overflow, S->stop,
-                now_s() - t0);
+                (unsigned long long)S->frontier_overflow,
+                (unsigned long long)S->hash_mismatch, S->stop, now_s() - t0);
         for (int i = 0; i < S->nout; i++) {
             fprintf(out, "%s{\"obs\":", i ? "," : "");
             json_str(out, S->out[i].text);
